@@ -47,7 +47,9 @@ class _Poison:
 
     def __ne__(self, o):
         return True
-    __hash__ = None
+
+    def __hash__(self):
+        return 0x7ff8
 
     def __deepcopy__(self, memo):
         return self
@@ -655,7 +657,10 @@ class SymReal:
         raise NotEncodable("pow %r" % (k,))
 
     def __abs__(self):
-        return SymReal(z3.If(self.z >= 0, self.z, -self.z))
+        r = reduced(self)
+        if not isinstance(r, SymReal):
+            return abs(r)
+        return SymReal(z3.If(r.z >= 0, r.z, -r.z))
 
     # comparisons -----------------------------------------------------------
     def _cmp(self, o, f):
@@ -664,6 +669,18 @@ class SymReal:
         b = self._coerce(o)
         if b is None:
             return NotImplemented
+        c = Ctx.cur
+        if c is not None:
+            from . import polyred
+            if polyred.active(c):
+                try:
+                    d = polyred.Rewriter(c).rw(self.z - b)
+                except polyred.NotPolynomial:
+                    d = None
+                if d is not None:
+                    if z3.is_rational_value(d):
+                        return bool(z3.is_true(z3.simplify(f(d, z3.RealVal(0)))))
+                    return SymBool(f(d, z3.RealVal(0)))
         return SymBool(f(self.z, b))
 
     def __lt__(self, o): return self._cmp(o, lambda a, b: a < b)
@@ -712,6 +729,9 @@ class SymReal:
 def sym_div(a, b):
     """a / b with b symbolic: forks on b == 0 (poison side) unless infeasible"""
     c = ctx()
+    b = reduced(b)
+    if not isinstance(b, SymReal):
+        return a / b
     bz = toz(b)
     fc = forced_const(bz)
     if fc is not None:
@@ -817,6 +837,8 @@ def sym_sqrt(x):
     if x is POISON:
         return POISON
     c = ctx()
+    nonneg = isinstance(x, SymReal) and syntactically_nonneg(x.z)
+    x = reduced(x)
     if isinstance(x, SymReal):
         fc = forced_const(x.z)
         if fc is not None:
@@ -840,7 +862,7 @@ def sym_sqrt(x):
     if key in memo:
         return memo[key][0]
     # domain: negative radicand -> poison (fork only if feasible)
-    if not syntactically_nonneg(x.z) and c.branch(x.z < 0):
+    if not nonneg and not syntactically_nonneg(x.z) and c.branch(x.z < 0):
         return POISON
     s = c.fresh("sqrt")
     c.axiom(s, z3.And(s >= 0, s * s == x.z))
@@ -865,6 +887,54 @@ def eq_goal(a, b):
     if ra is not None and rb is not None:
         return ra == rb
     return toz(a) == toz(b)
+
+
+def _as_unit_norm(f):
+    """if f is  w*w + x*x + y*y + z*z == 1  over four distinct constants, return (w,x,y,z)"""
+    if not (z3.is_eq(f) and f.num_args() == 2):
+        return None
+    lhs, rhs = f.arg(0), f.arg(1)
+    if not (z3.is_rational_value(rhs) and zval_to_fraction(rhs) == 1):
+        return None
+    leaves, st = [], [lhs]
+    while st:
+        x = st.pop()
+        if z3.is_app(x) and x.decl().kind() == z3.Z3_OP_ADD:
+            st.extend(reversed(x.children()))
+        else:
+            leaves.append(x)
+    if len(leaves) != 4:
+        return None
+    vs = []
+    for m in leaves:
+        if not (z3.is_app(m) and m.decl().kind() == z3.Z3_OP_MUL and m.num_args() == 2 and m.arg(0).eq(m.arg(1))
+                and z3.is_const(m.arg(0)) and m.arg(0).decl().kind() == z3.Z3_OP_UNINTERPRETED):
+            return None
+        vs.append(m.arg(0))
+    if len({v.get_id() for v in vs}) != 4:
+        return None
+    return vs
+
+
+def auto_declare_units(c):
+    from . import polyred
+    for f in c.assumptions:
+        q = _as_unit_norm(f)
+        if q is not None:
+            polyred.unit_hyps_of(c).add(q)
+
+
+def reduced(v):
+    """value reduced modulo the path's unit-norm hypotheses / definitions"""
+    if isinstance(v, SymReal):
+        from . import polyred
+        c = Ctx.cur
+        if c is not None and polyred.active(c):
+            try:
+                return polyred.reduce_value(c, v)
+            except polyred.NotPolynomial:
+                return v
+    return v
 
 
 # --------------------------------------------------------------------------
@@ -897,6 +967,7 @@ def explore(fn, assumptions=(), timeout_ms=20000, max_paths=5000, seed=0,
         plan = stack.pop()
         c = Ctx(assumptions, plan, timeout_ms, stats, seed)
         Ctx.cur = c
+        auto_declare_units(c)
         exc = None
         try:
             out = fn()
